@@ -4,7 +4,7 @@
    history h (any list of logins, logouts, proxy registrations and closures, visitor connections, NAT-hole
    requests with or without pre-check, session ends, accepts); [spec_of h] is the specification's view of the
    same history: which registration (owner, kind, key, effective allowed users) is live under each name. *)
-From FRP Require Import Model.Visitor Proofs.VisitorProofs.
+From FRP Require Import Model.Visitor Proofs.VisitorProofs Model.VisitorStacks Proofs.VisitorStacksCheck gen.GenVisitorStacks.
 Open Scope Z_scope.
 
 (* the server's tables hold exactly the live registrations of the specification, after every history *)
@@ -167,8 +167,28 @@ Theorem C08_visitor_stream_transparent :
 Proof. exact visitor_stream_transparent. Qed.
 Print Assumptions C08_visitor_stream_transparent.
 
+(* Reflective, over today's translator output (unit t5v: server/visitor/visitor.go NewConn, client/visitor/stcp.go,
+   sudp.go, xtcp.go, server/service.go RegisterVisitorConn): whatever flags the visitor configures and whatever the key,
+   the stack the server puts on the visitor connection and the stack each visitor type puts on its end are both the
+   model's [vstack] - encryption first, compression on top, each under its own flag, keyed by the secret key - hence
+   mirror images to which C08_visitor_stream_transparent applies. *)
+Theorem C08_stacks_mirror_today :
+  forall (ue uc : bool) (sk : bytes) (genv : String.string -> bool) (kenv : String.string -> bytes),
+    genv "useEncryption"%string = ue -> genv "sv.cfg.Transport.UseEncryption"%string = ue ->
+    genv "useCompression"%string = uc -> genv "sv.cfg.Transport.UseCompression"%string = uc ->
+    kenv "[]byte(l.sk)"%string = sk -> kenv "[]byte(sv.cfg.SecretKey)"%string = sk ->
+    gsite_interp genv kenv gvs_server_newconn = Some (vstack ue uc sk) /\
+    gsite_interp genv kenv gvs_client_stcp = Some (vstack ue uc sk) /\
+    gsite_interp genv kenv gvs_client_sudp = Some (vstack ue uc sk) /\
+    gsite_interp genv kenv gvs_client_xtcp = Some (vstack ue uc sk).
+Proof.
+  exact (visitor_stacks_sound gvs_server_newconn gvs_client_stcp gvs_client_sudp gvs_client_xtcp
+           gvs_newconn_params gvs_register_args gvs_msg_stcp gvs_msg_sudp (eq_refl true)).
+Qed.
+Print Assumptions C08_stacks_mirror_today.
+
 (* ---- the hypotheses are satisfiable: concrete histories (toy hash: key ++ 8-byte timestamp) ---- *)
-Definition ex_hash (sk : bytes) (ts : Z) : bytes := sk ++ be 8 ts.
+Definition ex_hash (sk : bytes) (ts : Z) : bytes := (sk ++ be 8 ts)%list.
 Definition ex_r1 := hx "7231". Definition ex_r2 := hx "7232". Definition ex_r3 := hx "7233".
 Definition ex_alice := hx "616c696365". Definition ex_mallory := hx "6d616c6c6f7279".
 Definition ex_p := hx "70". Definition ex_x := hx "78". Definition ex_sk := hx "6b6579".
